@@ -1303,7 +1303,8 @@ Proof. intros [n d]. reflexivity. Qed.
 
 (* quantile(phi, values) for 0 <= phi <= 1: the values are sorted NaN-first ascending, the rank
    phi*(n-1) is split into its integral part lo (0 <= lo <= n-1) and weight 0 <= w < 1, and the
-   result is s[lo]*(1-w) + s[min(n-1, lo+1)]*w computed in float arithmetic *)
+   result is the value at that rank, s[lo], when w = 0, and s[lo]*(1-w) + s[min(n-1, lo+1)]*w
+   computed in float arithmetic otherwise *)
 Lemma quantile_spec : forall ovf (q : Q) (vals : list fval),
   vals <> [] -> (0 <= q)%Q -> (q <= 1)%Q ->
   let s := sort_by heap_less vals in
@@ -1315,8 +1316,9 @@ Lemma quantile_spec : forall ovf (q : Q) (vals : list fval),
   Permutation s vals /\ Sorted (fun a b => nf_le a b = true) s /\
   0 <= lo <= n - 1 /\ lo <= hi <= n - 1 /\ (0 <= w)%Q /\ (w < 1)%Q /\
   quantile ovf (FFin q) vals =
-    fadd ovf (fmul ovf (nth (Z.to_nat lo) s FNaN) (FFin (1 - w)))
-             (fmul ovf (nth (Z.to_nat hi) s FNaN) (FFin w)).
+    (if Qeq_bool w 0 then nth (Z.to_nat lo) s FNaN
+     else fadd ovf (fmul ovf (nth (Z.to_nat lo) s FNaN) (FFin (1 - w)))
+                   (fmul ovf (nth (Z.to_nat hi) s FNaN) (FFin w))).
 Proof.
   intros ovf q vals Hne Hq0 Hq1 s n rank lo hi w.
   destruct (sort_by_spec vals) as [Hp Hs]. split; [exact Hp|]. split; [exact Hs|].
@@ -1343,12 +1345,44 @@ Proof.
   fold n. fold rank. fold lo. rewrite (Z.max_r 0 lo) by assumption. fold hi. fold w. reflexivity.
 Qed.
 
-(* FINDING witness: quantile(1, {1, +Inf}) is NaN (the maximum +Inf times weight 0), and so is
-   the quantile of a single +Inf value *)
-Lemma quantile_zero_weight_inf : forall ovf,
-  quantile ovf (FFin 1) [FFin 1; FInf false] = FNaN /\
-  quantile ovf (FFin (1 # 2)) [FInf false] = FNaN /\
-  agg_max (FFin 1) [FInf false] = FInf false.
+(* phi = 1 designates the last element of the NaN-first ascending order (the maximum), phi = 0
+   the first one *)
+Lemma qfloor_mul1 : forall z, qfloor (1 * inject_Z z) = z.
+Proof. intro z. unfold qfloor. cbn [Qnum Qden Qmult inject_Z]. rewrite Z.mul_1_l. apply Z.div_1_r. Qed.
+
+Lemma quantile_one : forall ovf v vals,
+  quantile ovf (FFin 1) (v :: vals) = nth (length vals) (sort_by heap_less (v :: vals)) FNaN.
+Proof.
+  intros ovf v vals. unfold quantile.
+  change (Qltb 1 0) with false. change (Qltb 1 1) with false. cbv iota.
+  set (z := Z.of_nat (length (v :: vals)) - 1).
+  assert (Hz : z = Z.of_nat (length vals)) by (unfold z; cbn [length]; lia).
+  rewrite qfloor_mul1.
+  assert (Hw : Qeq_bool (1 * inject_Z z - inject_Z z) 0 = true) by (apply Qeq_bool_iff; ring).
+  rewrite Hw, Z.max_r by lia. rewrite Hz, Nat2Z.id. reflexivity.
+Qed.
+
+Lemma quantile_zero : forall ovf v vals,
+  quantile ovf (FFin 0) (v :: vals) = nth 0 (sort_by heap_less (v :: vals)) FNaN.
+Proof.
+  intros ovf v vals. unfold quantile.
+  change (Qltb 0 0) with false. change (Qltb 1 0) with false. cbv iota.
+  set (z := Z.of_nat (length (v :: vals)) - 1).
+  assert (Hf : qfloor (0 * inject_Z z) = 0) by (unfold qfloor; cbn [Qnum Qden Qmult inject_Z]; now rewrite Z.mul_0_l).
+  rewrite Hf.
+  assert (Hw : Qeq_bool (0 * inject_Z z - inject_Z 0) 0 = true) by (apply Qeq_bool_iff; ring).
+  rewrite Hw. reflexivity.
+Qed.
+
+(* witness of the defect fixed by 023c7e876c: the old quantile(1, {1, +Inf}) is NaN (the maximum
+   +Inf times weight 0), and so is the old quantile of a single +Inf value; the repaired
+   function returns +Inf in both cases *)
+Lemma quantile_zero_weight_inf_old : forall ovf,
+  quantile_old ovf (FFin 1) [FFin 1; FInf false] = FNaN /\
+  quantile_old ovf (FFin (1 # 2)) [FInf false] = FNaN /\
+  agg_max (FFin 1) [FInf false] = FInf false /\
+  quantile ovf (FFin 1) [FFin 1; FInf false] = FInf false /\
+  quantile ovf (FFin (1 # 2)) [FInf false] = FInf false.
 Proof. intro ovf. repeat split. Qed.
 
 (* ------------------------------------------------------------------ the many-to-many error is complete *)
